@@ -256,6 +256,64 @@ def endpoint_first(rep):
     rep.coverage["endpoint_first_evaluations"] = len(reqs)
 
 
+AMBIENT = {"prec=6": dict(prec=6), "prec=3": dict(prec=3), "prec=6, nothing trapped": dict(prec=6, traps=[]),
+           "rounding down, prec=9": dict(prec=9, rounding=decimal.ROUND_DOWN), "Emax=5": dict(Emax=5, Emin=-5),
+           "prec=50": dict(prec=50)}
+
+
+def judge_public(mtype, action, path, base, x, async_validation, ctx_kwargs):
+    """the verdict of the public coroutine validate_payload() for value x at the position, called while the application's
+    current decimal context is Context(**ctx_kwargs); inline or through the executor"""
+    import asyncio
+    import ocpp.messages as M
+    from ocpp.exceptions import OCPPError
+    from ocpp.messages import Call, CallResult, validate_payload
+    p = set_at(base, path, x)
+    msg = Call("i", action, p) if mtype == "Call" else CallResult("i", p, action)
+
+    async def go():
+        with decimal.localcontext(decimal.Context(**ctx_kwargs)):
+            try:
+                await validate_payload(msg, "1.6")
+                return ("accept", None)
+            except OCPPError as e:
+                return ("reject", e.code)
+            except Exception as e:  # noqa: BLE001
+                return ("crash", type(e).__name__)
+    old = M.ASYNC_VALIDATION
+    M.ASYNC_VALIDATION = async_validation
+    try:
+        return asyncio.run(go())
+    finally:
+        M.ASYNC_VALIDATION = old
+
+
+def ambient_contexts(rep):
+    """'judged by decimal digits': the judgement is the library's own exact arithmetic and not whatever precision,
+    rounding or exponent range the APPLICATION has configured in the decimal module for its own sums -- inline and
+    when the validation is handed to a worker thread"""
+    vals = [21.4, 100000.0, 150000.5, 999999999.9, 1234567.8, 0.1, 16, 250000, 21.45, 100000.05, 0.15, 1234567.89]
+    n = 0
+    for name, kw in AMBIENT.items():
+        for pos_i, (mtype, action, path) in enumerate(POSITIONS):
+            base = base_payload(mtype, action)
+            for x in vals[pos_i % 2::2] if pos_i else vals:
+                for flag in (False, True):
+                    v = judge_public(mtype, action, path, base, x, flag, kw)
+                    n += 1
+                    rep.count("ambient:%s:%d:%r:%s" % (name, pos_i, x, flag))
+                    fd = frac_digits(x)
+                    want = ("accept", None) if fd <= 1 else ("reject", "FormatViolation")
+                    if v != want:
+                        rep.violation("C14:ambient-context:%s:%s:%s" % (name, "executor" if flag else "inline", want[0]),
+                                      "with the application's decimal context set to Context(%s), value %r (%d fractional digit(s)) in %s %s %s "
+                                      "is judged %r %s, expected %r" % (", ".join("%s=%r" % kv for kv in kw.items()), x, fd, mtype, action,
+                                                                       "/".join(map(str, path)), v, "in the executor" if flag else "inline", want),
+                                      {"kind": "ambient-context", "context": name, "mtype": mtype, "action": action, "path": list(path),
+                                       "value": x, "async_validation": flag, "verdict": list(v), "expected": list(want)})
+    rep.coverage["ambient_context_evaluations"] = n
+
+
 def body_factory(tier, seed):
     def body(rep, support_ok):
         jobs = []
@@ -297,6 +355,7 @@ def body_factory(tier, seed):
                                    "implementation": v, "wire_same_digits": wire_ok})
         rep.coverage["class_path_evaluations"] = n_cls
         endpoint_first(rep)
+        ambient_contexts(rep)
         total = sum(per.values()) + n_cls
         rep.coverage["evaluations"] += total
         rep.coverage["sweep_per_position"] = {"/".join([POSITIONS[i][1]] + [str(x) for x in POSITIONS[i][2]]): per[i] for i in per}
@@ -331,6 +390,11 @@ def run(rep, tier, seed):
 
 def replay(d):
     mtype, action, path, x = d["mtype"], d["action"], tuple(d["path"]), d["value"]
+    if d.get("kind") == "ambient-context":
+        v = judge_public(mtype, action, path, base_payload(mtype, action), x, d["async_validation"], AMBIENT[d["context"]])
+        print("under the application context %s: %r, expected %r" % (d["context"], v, tuple(d["expected"])))
+        print("HOLDS" if list(v) == d["expected"] else "FAILS")
+        return 0 if list(v) == d["expected"] else 1
     if d.get("kind") == "endpoint-first":
         import os
         import subprocess
